@@ -456,6 +456,13 @@ def scale_work(item):
             nodes = witness.preorder(base)
             while len(nodes) < n:
                 nodes += witness.preorder(base.copy())
+        elif how == "import-with-id-attributes":
+            # both importers, the same document again and again: the XML id attribute is data, not the node's id
+            from metapype.model import metapype_io, mp_io
+            doc = '<r id="root"><c id="person-1"><d id="d1"/></c><c id="person-1"/><e id="root"/></r>'
+            while len(nodes) < n:
+                nodes += witness.preorder(metapype_io.from_xml(doc))
+                nodes += witness.preorder(mp_io.from_xml(doc))
         else:
             from metapype.model import metapype_io
             doc = "<r>" + "<c><d/></c>" * 499 + "</r>"
@@ -520,7 +527,7 @@ def scale_work(item):
 
 def scale_items(tier):
     big = 70000 if tier == "quick" else 140000
-    return [("mass", ("create", big)), ("mass", ("copy", big)), ("mass", ("import", big)),
+    return [("mass", ("create", big)), ("mass", ("copy", big)), ("mass", ("import", big)), ("mass", ("import-with-id-attributes", 60)),
             ("sibling-replace", 3), ("sibling-replace", 4), ("sibling-replace", 5)]
 
 
